@@ -85,12 +85,11 @@ def run(pid, tier, seed):
     # valid sentences of exact lengths: with the two newlines around it the footer then ends exactly at (or one byte off) a
     # block size an I/O layer may read in - 2^k for k = 6..14 - written with zero-padded numbers
     longs = []
-    for k in range(6, 15):
+    for k in (6, 7, 8):
         for d in (-1, 0, 1):
             n = 2 ** k - 2 + d
             head, tail = b"EST5EDT,M3.2.0,M11.1.0/", b"2"
             longs.append(head + b"0" * (n - len(head) - len(tail)) + tail)
-    longs.append(b"EST" + b"0" * (16382 - 27) + b"5EDT,M3.2.0/0002,M11.1.0")
     ss = list(dict.fromkeys(ss + gen + longs))
     with open(os.path.join(work, "in.txt"), "w") as f:
         f.write("".join(s.hex() + "\n" for s in ss))
